@@ -201,6 +201,17 @@ def run(pid, tier, seed, replay=None):
                 chunk_items = [dict(it, id=len(items) + len(grid_items) + j) for j, it in enumerate(part[k0:k0 + 120])]
                 grid_items += chunk_items
                 batches.append({"items": chunk_items, "layout": lay})
+        # GENERATE E: twins - the same text in two cells of one row, conversion on for one and off for the other
+        pool_e = [it for it in items if it["kcmd"] is None][plan.get("grid_items", 480):plan.get("grid_items", 480) + plan.get("twin_items", 240)] or pool_d[:240]
+        for ti, pat in enumerate(([1, 0], [0, 1])):
+            part = pool_e[ti::2]
+            for k0 in range(0, len(part), 60):
+                chunk_items = []
+                for it in part[k0:k0 + 60]:
+                    for v in pat:
+                        chunk_items.append(dict(it, conv=bool(v), id=len(items) + len(grid_items) + len(chunk_items), pred=None))
+                grid_items += chunk_items
+                batches.append({"items": chunk_items, "layout": {"twin": pat}})
         ctx.extra["grid_layout_cells"] = len(grid_items)
         out = pmap(textconv.run_batch, batches, chunk=2)
         recs = [r for b in out for r in b]
